@@ -248,6 +248,15 @@ def fc_kind(P, t):
     return "?", None
 
 
+def is_own_address(sa):
+    """`fdl.parameters().address` – through the accessor or (accessor inlined) as the path <fdl>.p.address"""
+    sa = strip_casts(sa)
+    p = path_str(sa)
+    if p is not None:
+        return p.endswith(".p.address") and p.count(".") == 2 and not p.startswith("self.")
+    return sa[0] == "field" and sa[2] == "address" and M.mentions(sa, M.t_call("parameters"))
+
+
 def check_requests(ctx, P):
     # the diagnostics request helper
     diag_fns = []
@@ -271,7 +280,7 @@ def check_requests(ctx, P):
         req, fcb = fc_kind(P, fc)
         kind = (sap_val(dsap), sap_val(ssap), req)
         ok_da = path_str(strip_casts(da)) == "self.address"
-        ok_sa = sa[0] == "field" and sa[2] == "address" and M.t_call("parameters")(strip_refs(sa[1][1] if sa[1][0] == "deref" else sa[1]))
+        ok_sa = is_own_address(sa)
         ctx.ob("b.requests", "da|%s|%s" % (f.name, kind), ok_da, "request not addressed to the peripheral's own address: da = " + show(da), loc)
         ctx.ob("b.requests", "sa|%s|%s" % (f.name, kind), ok_sa, "request source is not this station's address: sa = " + show(sa), loc)
         ctx.ob("b.requests", "fcb|%s|%s" % (f.name, kind), fcb is not None and path_str(fcb) == "self.fcb",
